@@ -18,21 +18,25 @@ MPrevOf(s, k) == CASE PP(k) = 0 -> MSigInit[s]
                    [] PP(k) = 1 -> Norm(-1, MSigSh[s])
                    [] PP(k) = 2 -> Norm(2, MSigSh[s])
 
-MExprs == {"a", "b", "a0", "bneg", "aeqb", "c5", "cm1", "cm3", "apb", "z0", "wide"}
+MExprs == {"a", "b", "a0", "bneg", "aeqb", "c5", "cm1", "cm3", "apb", "z0", "wide", "p3", "p30"}
+(* p3 / p30: the register s3 itself / its bit 0, used as a run-time offset or index of a target *)
+MRegOf(e) == IF e \in {"p3", "p30"} THEN 3 ELSE 0
 MESh == [e \in MExprs |->
           CASE e = "a" -> Unsigned(2) [] e = "b" -> Signed(2) [] e = "a0" -> Unsigned(1) [] e = "bneg" -> Unsigned(1)
             [] e = "aeqb" -> Unsigned(1) [] e = "c5" -> Unsigned(3) [] e = "cm1" -> Signed(1) [] e = "cm3" -> Signed(3)
-            [] e = "apb" -> Signed(4) [] e = "z0" -> Unsigned(0) [] e = "wide" -> Unsigned(4)]
+            [] e = "apb" -> Signed(4) [] e = "z0" -> Unsigned(0) [] e = "wide" -> Unsigned(4)
+            [] e = "p3" -> Unsigned(2) [] e = "p30" -> Unsigned(1)]
 MEVal(e, k) ==
     CASE e = "a" -> InA(k) [] e = "b" -> InB(k) [] e = "a0" -> InA(k) % 2 [] e = "bneg" -> IF InB(k) < 0 THEN 1 ELSE 0
       [] e = "aeqb" -> IF InA(k) = InB(k) THEN 1 ELSE 0 [] e = "c5" -> 5 [] e = "cm1" -> -1 [] e = "cm3" -> -3
       [] e = "apb" -> InA(k) + InB(k) [] e = "z0" -> 0 [] e = "wide" -> InA(k) + 4 * UPat(InB(k), 2)
+      [] e = "p3" -> MPrevOf(3, k) [] e = "p30" -> MPrevOf(3, k) % 2
 
 I(v) == [k |-> "int", v |-> v]
 S(w, mask, val) == [k |-> "str", w |-> w, mask |-> mask, val |-> val]
 MPatSets(t) ==
-    CASE t = "a" -> { <<>>, <<I(1)>>, <<I(0), I(3)>>, <<S(2, 2, 2)>>, <<I(5)>>, <<S(2, 0, 0)>> }
-      [] t = "b" -> { <<I(-1)>>, <<I(1), I(-2)>>, <<S(2, 2, 2)>>, <<I(3)>> }
+    CASE t = "a" -> { <<>>, <<I(1)>>, <<I(0), I(3)>>, <<S(2, 2, 2)>>, <<I(5)>>, <<S(2, 0, 0)>>, <<S(2, 3, 2), S(2, 3, 1)>> }
+      [] t = "b" -> { <<I(-1)>>, <<I(1), I(-2)>>, <<S(2, 2, 2)>>, <<I(3)>>, <<S(2, 3, 2)>>, <<S(2, 3, 3), I(0)>> }
       [] t = "z0" -> { <<S(0, 0, 0)>>, <<I(0)>> }
       [] OTHER -> {}
 
@@ -47,8 +51,15 @@ TreesRich == { Sg(1), Sg(2), Sl(Sg(1), 1, 3), Sl(Sg(2), 0, 2), Ct(<<Sg(3), Sl(Sg
                Pt(Sg(1), "a", 2, 1), Pt(Sg(1), "a0", 2, 2), Pt(Sg(2), "a", 1, 1), Ar(<<Sg(1), Sg(3)>>, "a0"),
                Re(Sg(2), FALSE), Sl(Re(Sg(1), TRUE), 1, 3), Sl(Ct(<<Sg(1), Sg(2)>>), 2, 5),
                Pt(Ct(<<Sg(3), Sg(1)>>), "a", 3, 1), Ar(<<Sg(1), Sg(2)>>, "z0"), Ct(<<>>), Sl(Sg(3), 1, 1),
-               Pt(Ar(<<Sg(1), Sg(3)>>, "a0"), "a", 2, 1), Pt(Ar(<<Sg(3), Sg(2)>>, "a0"), "a0", 2, 2) }
+               Pt(Ar(<<Sg(1), Sg(3)>>, "a0"), "a", 2, 1), Pt(Ar(<<Sg(3), Sg(2)>>, "a0"), "a0", 2, 2),
+               \* a part select overhanging a window that is narrower than the signal: the overhang is dropped
+               Pt(Sl(Sg(1), 0, 2), "a", 2, 1) }
 TreesSmall == { Sg(1), Sl(Sg(1), 1, 3), Sg(2) }
+(* targets addressed through the register s3 (assigned earlier in the same domain: offsets use its value before the edge) *)
+TreesReg == { Pt(Sg(1), "p3", 2, 1), Sl(Pt(Sg(1), "p3", 2, 1), 0, 1), Sl(Pt(Sg(2), "p30", 2, 2), 1, 2),
+              Pt(Pt(Sg(1), "p30", 2, 1), "a0", 1, 1), Ar(<<Sg(1), Sg(2)>>, "p30"), Sl(Ar(<<Sg(1), Sg(2)>>, "p30"), 1, 3),
+              Re(Pt(Sg(2), "p3", 1, 1), TRUE) }
+TargetsReg == {[t |-> x, d |-> "sync"] : x \in TreesReg \cup {Sg(3), Sl(Sg(3), 0, 1)}}
 WithDoms(ts) == {[t |-> x, d |-> d] : x \in ts, d \in {"comb", "sync"}}
 TargetsRich == WithDoms(TreesRich)
 TargetsSmall == WithDoms(TreesSmall)
